@@ -50,6 +50,7 @@ func checkLayerMutatorsUnconditional(c *core.Ctx) {
 		c.Decide(len(reads) == 0, "C11.net-effect", fn, "recording does not depend on the layer's (or the backing store's) current contents", c.P.Rel(fn.Pos()), sprintf("%d read(s) before recording", len(reads)))
 	}
 	checkCommitForwardsAll(c)
+	checkLayerReads(c, "", "C11.reads-record-nothing")
 }
 
 // checkCommitForwardsAll: CacheDB.Commit carries a successful transaction's
